@@ -1,4 +1,9 @@
 import OtelVerif.Model.C11
+import OtelVerif.Lemmas.C11Sys
+import OtelVerif.Lemmas.C11Mutex
+import OtelVerif.Lemmas.C11Inst
+import OtelVerif.Lemmas.C11SysEvents
+import OtelVerif.Lemmas.C11WLock
 /-!
 # C11 — component status events always follow the documented state machine
 
@@ -511,5 +516,355 @@ theorem C11_shared_events_partial (pre post : List WOp)
 
 example : (WrapperE.runOps StatusTable.ringCap {} (.attach :: [.report .starting, .report .recoverable, .attach, .attach, .report .ok])).sources =
     [(.ok, [.recoverable, .ok]), (.ok, [.recoverable, .ok]), (.ok, [.recoverable, .ok])] := by decide
+
+/-! ## the service's glue as code-shaped programs (`Model/C11Sys.lean`): graph / extensions / service loops, `sharedcomponent.Component`
+
+`Sys.ops` is tied to the real `service.New/Start/Shutdown` by the exact `c11-sys` differential (every instance of every case). -/
+
+/-- the regenerated status skeletons of `graph.StartAll` / `ShutdownAll`, `extensions.Start` / `Shutdown` and the layer order of
+`service.Start` / `Shutdown` are the documented ones: Starting before `Start`; PermanentError and ABORT when it fails, else
+OK-if-still-starting; Stopping before `Shutdown`; PermanentError and CARRY ON when it fails, else Stopped; pipeline components
+are handed a reporting host (`HostWrapper` with their instance id), extensions the bare host; extensions start before and stop
+after the pipelines, in reverse -/
+theorem C11_glue_skeletons :
+    StatusGlue.graphStart = docStart true ∧ StatusGlue.graphStop = docStop ∧
+    StatusGlue.extStart = docStart false ∧ StatusGlue.extStop = docStop ∧ StatusGlue.extStopBackwards = true ∧
+    StatusGlue.serviceStart = [.extensions, .pipelines] ∧ StatusGlue.serviceStop = [.pipelines, .extensions] := glue_skeletons
+
+/-- … so the interpreted service run equals the run through the hand-readable loops `startAll` / `stopAll` -/
+theorem C11_glue_as_documented (cap : Nat) (s : Sys) : s.ops cap = s.opsDoc cap := glue_as_documented cap s
+
+/-- **refinement: `Life` is what the code-shaped loops do to one plain pipeline component.**  In ANY service (any extensions, any
+other instances — plain or shared, any number of shared components — before and after it in the start and stop orders, any
+scripts), the reports that reach the state machine of a plain pipeline component instance `t` are exactly `Life.reports`, with
+`started` = start-up got as far as `t` (no extension and no earlier instance failed to start) and `allStarted` = the whole
+start-up succeeded.  (`a`/`b`, `c`/`d`: the instances `StartAll` / `ShutdownAll` visit before / after `t`; instance ids are
+distinct.) -/
+theorem C11_sys_plain_is_life (cap : Nat) (s : Sys) (t : Inst) (sc : Script) (a b c d : List Node)
+    (hS : s.startOrder = a ++ ⟨t, .plain sc⟩ :: b) (hT : s.stopOrder = c ++ ⟨t, .plain sc⟩ :: d)
+    (ha : ∀ n ∈ a, n.inst ≠ t) (hb : ∀ n ∈ b, n.inst ≠ t) (hc : ∀ n ∈ c, n.inst ≠ t) (hd : ∀ n ∈ d, n.inst ≠ t)
+    (he : ∀ n ∈ s.exts, n.inst ≠ t) :
+    (s.ops cap).filterMap (projOp t) =
+      (Life.mk (s.reaches cap a) sc.duringStart sc.failStart (s.startedUp cap) sc.running sc.duringStop sc.failStop).reports := by
+  rw [C11_glue_as_documented]
+  exact sys_plain_is_life_doc cap s t sc a b c d hS hT ha hb hc hd he
+
+/-- … hence its watcher is shown exactly `Life.events` -/
+theorem C11_sys_plain_events (cap : Nat) (s : Sys) (t : Inst) (sc : Script) (a b c d : List Node)
+    (hS : s.startOrder = a ++ ⟨t, .plain sc⟩ :: b) (hT : s.stopOrder = c ++ ⟨t, .plain sc⟩ :: d)
+    (ha : ∀ n ∈ a, n.inst ≠ t) (hb : ∀ n ∈ b, n.inst ≠ t) (hc : ∀ n ∈ c, n.inst ≠ t) (hd : ∀ n ∈ d, n.inst ≠ t)
+    (he : ∀ n ∈ s.exts, n.inst ≠ t) :
+    s.events cap t =
+      (Life.mk (s.reaches cap a) sc.duringStart sc.failStart (s.startedUp cap) sc.running sc.duringStop sc.failStop).events := by
+  simp only [Sys.events, Life.events, C11_sys_plain_is_life cap s t sc a b c d hS hT ha hb hc hd he]
+
+/-- the same for an EXTENSION (handed the bare host: whatever it tries to report itself vanishes): its state machine receives
+`Life.reports` with no own reports, so by `C11_lifecycle_quiet_all` its watcher is shown exactly Starting, OK | PermanentError,
+Stopping, Stopped | PermanentError — or nothing if an earlier extension failed to start -/
+theorem C11_sys_extension_events (cap : Nat) (s : Sys) (t : Inst) (sc : Script) (ea eb : List Node)
+    (hX : s.exts = ea ++ ⟨t, .plain sc⟩ :: eb) (ha : ∀ n ∈ ea, n.inst ≠ t) (hb : ∀ n ∈ eb, n.inst ≠ t)
+    (hS : ∀ n ∈ s.startOrder, n.inst ≠ t) (hT : ∀ n ∈ s.stopOrder, n.inst ≠ t) :
+    s.events cap t =
+      if (startAll cap false s.g0 ea).2.2 then
+        [.starting, if sc.failStart then .permanent else .ok, .stopping, if sc.failStop then .permanent else .stopped]
+      else [] := by
+  have h := sys_ext_is_life_doc cap s t sc ea eb hX ha hb hS hT
+  rw [← C11_glue_as_documented] at h
+  have h' : (s.ops cap).filterMap (projOp t) = _ := h
+  simp only [Sys.events, h']
+  exact C11_lifecycle_quiet_all _ _ _ _
+
+/-- **"a component shared by several pipelines or signals delivers its status to every instance it represents", at service level,
+any number of instances, no ring restriction:** in ANY service whose start-up succeeds, every status the inner component of shared
+component `k` reports while running is handed to the state machine of EVERY pipeline instance `x` of `k` — whichever other
+instances, plain or shared, extensions included, surround it and in whatever order they were started -/
+theorem C11_sys_shared_running_delivered (cap : Nat) (s : Sys) (k : Nat) (x : Inst) (a b : List Node)
+    (hS : s.startOrder = a ++ ⟨x, .shared k⟩ :: b) (hk : k < s.shared.length) (hup : s.startedUp cap = true)
+    (e : St) (he : e ∈ (s.shared.getD k {}).running) :
+    (x, Report.status e) ∈ s.ops cap := by
+  rw [C11_glue_as_documented]
+  exact sys_shared_running_delivered_doc cap s k x a b hS hk hup e he
+
+example :
+    let s : Sys := { exts := [⟨9, .plain {}⟩], startOrder := [⟨0, .plain {}⟩, ⟨1, .shared 0⟩, ⟨2, .shared 0⟩, ⟨3, .shared 0⟩],
+                     stopOrder := [⟨3, .shared 0⟩, ⟨2, .shared 0⟩, ⟨1, .shared 0⟩, ⟨0, .plain {}⟩],
+                     shared := [{ running := [.recoverable] }] }
+    s.startedUp 5 = true ∧ s.events 5 1 = [.starting, .ok, .recoverable, .stopping, .stopped] ∧ s.events 5 3 = s.events 5 1 := by
+  decide
+
+/-- **replay within the ring, ANY number of instances (code-shaped `sharedcomponent.Component`):** the first instance `x` starts the
+inner component; however many further instances attach before `z`, if what the component reported through the wrapper during its
+`Start` (regenerated `Starting`, its own reports, `PermanentError` if it fails) fits the ring, the late instance `z` is handed
+exactly the reports `x` received — so from the graph's `Starting` on, both watchers are shown the same events -/
+theorem C11_shared_replay_complete_N (sc : Script) (x z : Inst) (xs : List Inst) (hzx : z ≠ x) (hz : z ∉ xs) (hx : x ∉ xs)
+    (hfit : sc.startHistory.length ≤ StatusTable.ringCap) :
+    let ops := (SC.fireAll StatusTable.ringCap { script := sc }
+      (SCLabel.start x true :: (xs.map (fun y => SCLabel.start y true) ++ [SCLabel.start z true]))).2
+    ops.filterMap (projOp z) = sc.startHistory.map Report.status ∧ ops.filterMap (projOp x) = sc.startHistory.map Report.status ∧
+      run .starting (ops.filterMap (projOp z)) = run .starting (ops.filterMap (projOp x)) := by
+  obtain ⟨h1, h2⟩ := shared_replay_N StatusTable.ringCap sc x z xs hzx hz hx hfit
+  have h1' : _ = sc.startHistory.map Report.status := h1
+  have h2' : _ = sc.startHistory.map Report.status := h2
+  simp only [pr] at h1' h2'
+  exact ⟨h1', h2', by rw [h1', h2']⟩
+
+example : ({ duringStart := [.recoverable, .ok], failStart := true } : Script).startHistory = [.starting, .recoverable, .ok, .permanent] := by decide
+
+/-- non-vacuity of `C11_shared_replay_complete_N`: four instances, the fourth is replayed what the first received -/
+example :
+    let ops := (SC.fireAll 5 { script := { duringStart := [.recoverable, .ok] } }
+      [.start 1 true, .start 2 true, .start 3 true, .start 4 true]).2
+    ops.filterMap (projOp 4) = [.status .starting, .status .recoverable, .status .ok] ∧
+      ops.filterMap (projOp 1) = ops.filterMap (projOp 4) := by decide
+
+/-- **service level, any number of instances, first or late: every instance of a shared component receives the same reports until
+the service starts stopping.**  In any service whose start-up succeeds, if what component `k` reports during its `Start` fits the
+ring (and no extension is an instance of `k`), the reports reaching the state machine of ANY pipeline instance `x` of `k` during
+`service.Start` and the running phase are `Starting, <start history>, OK-if-starting, <running reports>` — one list, the same for
+every instance, whatever other instances (plain, shared, of `k` or not) are started before or after it -/
+theorem C11_sys_shared_same_reports (s : Sys) (k : Nat) (x : Inst) (a b : List Node)
+    (hS : s.startOrder = a ++ ⟨x, .shared k⟩ :: b) (ha : ∀ n ∈ a, n.inst ≠ x) (hb : ∀ n ∈ b, n.inst ≠ x)
+    (he : ∀ n ∈ s.exts, n.inst ≠ x ∧ n.kind ≠ .shared k) (hk : k < s.shared.length)
+    (hfit : (s.shared.getD k {}).startHistory.length ≤ StatusTable.ringCap) (hup : s.startedUp StatusTable.ringCap = true) :
+    s.ops StatusTable.ringCap = s.upOpsDoc StatusTable.ringCap ++ s.downOpsDoc StatusTable.ringCap ∧
+    (s.upOpsDoc StatusTable.ringCap).filterMap (projOp x) =
+      Report.status .starting :: ((s.shared.getD k {}).startHistory.map Report.status ++
+        Report.okIfStarting :: (s.shared.getD k {}).running.map Report.status) := by
+  refine ⟨by rw [C11_glue_as_documented, Sys.opsDoc_split], ?_⟩
+  exact sys_shared_up_reports StatusTable.ringCap s k x a b hS ha hb he hk hfit hup
+
+/-- **the proved part of `C11_sys_shared_same_events_full` (below):** in any service whose start-up succeeds, while what the shared
+component reports during its `Start` fits the ring (and no extension is an instance of it), the watchers of ANY two pipeline
+instances `x`, `y` of the component — first or late, any number of other instances around — are shown the same events before
+Stopping.  Hypothesis that cannot be dropped: the ring fit (`C11_sys_shared_same_events_full_fails`). -/
+theorem C11_sys_shared_same_events_partial (s : Sys) (k : Nat) (x y : Inst) (a b a' b' : List Node)
+    (hSx : s.startOrder = a ++ ⟨x, .shared k⟩ :: b) (hax : ∀ n ∈ a, n.inst ≠ x) (hbx : ∀ n ∈ b, n.inst ≠ x)
+    (hSy : s.startOrder = a' ++ ⟨y, .shared k⟩ :: b') (hay : ∀ n ∈ a', n.inst ≠ y) (hby : ∀ n ∈ b', n.inst ≠ y)
+    (he : ∀ n ∈ s.exts, n.inst ≠ x ∧ n.inst ≠ y ∧ n.kind ≠ .shared k) (hk : k < s.shared.length)
+    (hfit : (s.shared.getD k {}).startHistory.length ≤ StatusTable.ringCap) (hup : s.startedUp StatusTable.ringCap = true) :
+    beforeStopping (s.events StatusTable.ringCap x) = beforeStopping (s.events StatusTable.ringCap y) := by
+  rw [sys_shared_same_events StatusTable.ringCap s k x a b hSx hax hbx (fun n hn => ⟨(he n hn).1, (he n hn).2.2⟩) hk hfit hup,
+      sys_shared_same_events StatusTable.ringCap s k y a' b' hSy hay hby (fun n hn => ⟨(he n hn).2.1, (he n hn).2.2⟩) hk hfit hup]
+
+example :
+    let s : Sys := { exts := [⟨9, .plain {}⟩], startOrder := [⟨1, .shared 0⟩, ⟨0, .plain { duringStart := [.ok] }⟩, ⟨2, .shared 0⟩, ⟨3, .shared 0⟩],
+                     stopOrder := [⟨3, .shared 0⟩, ⟨0, .plain { duringStart := [.ok] }⟩, ⟨2, .shared 0⟩, ⟨1, .shared 0⟩],
+                     shared := [{ duringStart := [.recoverable, .permanent], running := [.ok], failStop := true }] }
+    s.startedUp 5 = true ∧ beforeStopping (s.events 5 1) = [.starting, .recoverable, .permanent] ∧
+      s.events 5 3 = [.starting, .recoverable, .permanent, .stopping, .permanent] ∧
+      s.events 5 1 = [.starting, .recoverable, .permanent, .stopping, .permanent, .stopping, .stopped] := by
+  decide
+
+/-- full statement of the shared-delivery clause at service level (the driver's `prop shared` oracle on the implementation's
+events): after a successful start-up all instances of one shared component have been shown the same events until the service
+starts stopping them -/
+def C11_sys_shared_same_events_full : Prop :=
+  ∀ (s : Sys) (k : Nat) (x y : Inst), ⟨x, .shared k⟩ ∈ s.startOrder → ⟨y, .shared k⟩ ∈ s.startOrder →
+    s.startedUp StatusTable.ringCap = true →
+    beforeStopping (s.events StatusTable.ringCap x) = beforeStopping (s.events StatusTable.ringCap y)
+
+/-- … it is FALSE of the code as it is, for the same reason as `C11_shared_full_fails` (the replay ring): a shared receiver in two
+signals whose `Start` reports PermanentError and then five more statuses — the first instance stays in PermanentError, the late
+one is replayed only the last five and is shown OK (corpus case 0 of the `sysservice` harness replays it on the real service;
+open known finding `C11/sharedcomponent/ring-overflow-after-sticky`) -/
+theorem C11_sys_shared_same_events_full_fails : ¬ C11_sys_shared_same_events_full := by
+  intro h
+  have := h { startOrder := [⟨0, .shared 0⟩, ⟨1, .shared 0⟩], stopOrder := [⟨0, .shared 0⟩, ⟨1, .shared 0⟩],
+              shared := [{ duringStart := [.permanent, .ok, .recoverable, .ok, .recoverable, .ok] }] } 0 0 1
+    (by decide) (by decide) (by decide)
+  revert this
+  decide
+
+/-- non-vacuity of `C11_sys_extension_events`: the second of three extensions fails to start -/
+example :
+    let s : Sys := { exts := [⟨7, .plain {}⟩, ⟨8, .plain { duringStart := [.ok], failStart := true }⟩, ⟨9, .plain {}⟩],
+                     startOrder := [⟨0, .plain {}⟩], stopOrder := [⟨0, .plain {}⟩] }
+    s.events 5 7 = [.starting, .ok, .stopping, .stopped] ∧ s.events 5 8 = [.starting, .permanent, .stopping, .stopped] ∧
+      s.events 5 9 = [] ∧ s.events 5 0 = [] := by decide
+
+/-- non-vacuity: a plain exporter between a shared receiver's two instances and a failing processor -/
+example :
+    let s : Sys := { startOrder := [⟨0, .plain {}⟩, ⟨1, .shared 0⟩, ⟨7, .plain { duringStart := [.recoverable], running := [.ok] }⟩, ⟨2, .shared 0⟩, ⟨3, .plain { failStart := true }⟩],
+                     stopOrder := [⟨2, .shared 0⟩, ⟨7, .plain { duringStart := [.recoverable], running := [.ok] }⟩, ⟨1, .shared 0⟩, ⟨0, .plain {}⟩, ⟨3, .plain { failStart := true }⟩],
+                     shared := [{ duringStart := [.recoverable] }] }
+    s.events 5 7 = [.starting, .recoverable, .stopping, .stopped] ∧ s.reaches 5 [⟨0, .plain {}⟩, ⟨1, .shared 0⟩] = true ∧ s.startedUp 5 = false := by
+  decide
+
+/-- the statuses `sharedcomponent.Component` reports on its own through the wrapper (regenerated) -/
+theorem C11_shared_skeleton :
+    StatusGlue.sharedStartPre = [.starting] ∧ StatusGlue.sharedStartErr = [.permanent] ∧
+    StatusGlue.sharedStopPre = [.stopping] ∧ StatusGlue.sharedStopErr = [.permanent] ∧ StatusGlue.sharedStopOk = [.stopped] := by decide
+
+/-- what the watcher is shown for instance `i` in a service run IS the reporter's (atomic model's) output for the glue's reports -/
+theorem C11_sys_events_are_reporter_output (cap : Nat) (s : Sys) (i : Inst) :
+    ((Reporter.mk []).runAll (s.ops cap)).filterMap (projEv i) = s.events cap i := by
+  rw [C11_interleaving]; rfl
+
+/-- every service — any extensions, any pipeline component instances in any start / stop order, any number of shared components
+with any number of instances each, whatever every component reports and wherever start-up or shutdown fails —: the events of every
+instance satisfy the property's clauses -/
+theorem C11_sys_doc (cap : Nat) (s : Sys) (i : Inst) : DocPath .none (s.events cap i) := C11_events_doc _
+
+/-- `startOnce` / `stopOnce`: under ANY sequence of `Start` (by any instance, with or without a reporting host), `Shutdown` and
+report calls, the inner component is started at most once and shut down at most once -/
+theorem C11_shared_once (cap : Nat) (sc : Script) (ls : List SCLabel) :
+    (SC.fireAll cap { script := sc } ls).1.innerStarts ≤ 1 ∧ (SC.fireAll cap { script := sc } ls).1.innerStops ≤ 1 := by
+  obtain ⟨_, h2, h3⟩ := SCInv_fireAll cap _ ls (SCInv_fresh sc)
+  constructor
+  · rw [h2]; split <;> omega
+  · rw [h3]; split <;> omega
+
+/-- every instance whose `Start` was called with a status-reporting host is in the fan-out list from then on -/
+theorem C11_shared_attaches_every_instance (cap : Nat) (sc : Script) (ls : List SCLabel) :
+    (SC.fireAll cap { script := sc } ls).1.sources = attached ls := by
+  rw [SC.fireAll_sources cap _ ls (SCInv_fresh sc)]; simp [SC.sources]
+
+/-- … and every status the component reports after that is handed to that instance's reporter -/
+theorem C11_shared_delivers_after_attach (cap : Nat) (sc : Script) (pre post : List SCLabel) (e : St) (i : Inst)
+    (hi : i ∈ attached pre) :
+    (i, Report.status e) ∈ (SC.fireAll cap { script := sc } (pre ++ SCLabel.report e :: post)).2 := by
+  rw [SC.fireAll_append]
+  simp only [SC.fireAll, List.mem_append]
+  right; left
+  have hs := C11_shared_attaches_every_instance cap sc pre
+  generalize (SC.fireAll cap { script := sc } pre).1 = c at hs
+  simp only [SC.fire]
+  cases hw : c.hw with
+  | none => simp [SC.sources, hw] at hs; rw [hs] at hi; cases hi
+  | some h0 =>
+    simp only [SC.sources, hw, Option.map_some, Option.getD_some] at hs
+    simp only [HW.report, List.mem_map]
+    exact ⟨i, by rw [hs]; exact hi, rfl⟩
+
+example : attached [.start 3 true, .report .ok, .start 4 false, .start 5 true, .shutdown] = [3, 5] := by decide
+
+example : (Sys.events 5 { startOrder := [⟨0, .plain {}⟩, ⟨1, .shared 0⟩, ⟨2, .shared 0⟩, ⟨3, .plain { failStart := true }⟩, ⟨4, .plain {}⟩],
+                          stopOrder := [⟨2, .shared 0⟩, ⟨1, .shared 0⟩, ⟨0, .plain {}⟩, ⟨3, .plain { failStart := true }⟩, ⟨4, .plain {}⟩],
+                          shared := [{ duringStart := [.recoverable], failStop := true }] } 2,
+           Sys.events 5 { startOrder := [⟨0, .plain {}⟩, ⟨1, .shared 0⟩, ⟨2, .shared 0⟩, ⟨3, .plain { failStart := true }⟩, ⟨4, .plain {}⟩],
+                          stopOrder := [⟨2, .shared 0⟩, ⟨1, .shared 0⟩, ⟨0, .plain {}⟩, ⟨3, .plain { failStart := true }⟩, ⟨4, .plain {}⟩],
+                          shared := [{ duringStart := [.recoverable], failStop := true }] } 4)
+    = ([.starting, .recoverable, .stopping, .permanent], []) := by decide
+
+/-! ## the reporter mutex: one report IS one atomic step (sub-step LTS of `Model/C11Mutex.lean`)
+
+`C11_interleaving` takes a concurrent history to be a sequence of atomic reports.  That is no longer an assumption: every call is
+split into `Lock`, read of the FSM's current status, write, watcher callback, `Unlock`, interleaved at that granularity by an
+arbitrary scheduler; `useLock` is regenerated from the source (`reporterLocked`, `callbackSync`). -/
+
+/-- regenerated shape facts: both reporter methods hold `r.mu` from their first statement to their return and the watcher callback
+runs synchronously inside -/
+theorem C11_reporter_critical_section : (StatusTable.reporterLocked && StatusTable.callbackSync) = true := by decide
+
+/-- at EVERY reachable state of the sub-step system — any number of goroutines, any programs of reports, any scheduler —:
+(1) each goroutine's calls pass `Lock` in its program order; (2) whenever the lock is free the delivered events and every FSM are
+exactly those of the atomic model run on the calls in `Lock` order; (3) at all times the delivered events are a prefix of them -/
+theorem C11_mutex_atomic (progs : List (List (Inst × Report))) (sched : List Nat) (s : Mutex.MState)
+    (h : Mutex.runSched (Mutex.init (StatusTable.reporterLocked && StatusTable.callbackSync) progs) sched = some s) :
+    (∀ (t : Nat) (th : Mutex.Thread), s.threads[t]? = some th → ∃ done, progs[t]? = some (done ++ th.todo) ∧
+        s.taken t = done ++ (if th.phase = Mutex.Phase.idle then [] else th.todo.take 1)) ∧
+    (s.holder = Option.none → s.log = Reporter.runAll {} s.ops ∧ ∀ i, s.rep.cur i = (Mutex.after {} s.ops).cur i) ∧
+    (∃ k, s.log = (Reporter.runAll {} s.ops).take k) := by
+  rw [C11_reporter_critical_section] at h
+  exact Mutex.mutex_atomic progs sched s h
+
+theorem DocPath_take (cur : St) (l : List St) (k : Nat) (h : DocPath cur l) : DocPath cur (l.take k) := by
+  induction l generalizing cur k with
+  | nil => simpa using h
+  | cons e es ih =>
+    cases k with
+    | zero => simp [DocPath]
+    | succ k =>
+      obtain ⟨h1, h2, h3, h4, h5, h6, h7⟩ := h
+      exact ⟨h1, h2, h3, h4, h5, h6, ih e k h7⟩
+
+/-- the property's clauses at sub-step granularity: whatever the goroutines report and however they are scheduled, at every
+moment what the watchers have been shown for each instance satisfies the documented machine -/
+theorem C11_mutex_doc (progs : List (List (Inst × Report))) (sched : List Nat) (s : Mutex.MState) (i : Inst)
+    (h : Mutex.runSched (Mutex.init (StatusTable.reporterLocked && StatusTable.callbackSync) progs) sched = some s) :
+    DocPath .none (s.log.filterMap (projEv i)) := by
+  obtain ⟨_, _, k, hk⟩ := C11_mutex_atomic progs sched s h
+  obtain ⟨k', hk'⟩ := Mutex.filterMap_take_exists (projEv i) (Reporter.runAll {} s.ops) k
+  rw [hk, hk']
+  exact DocPath_take _ _ _ (C11_interleaving_doc s.ops i)
+
+/-- the lock is what makes it true: without it two goroutines reporting `Starting` for the same instance can both read `None`, and
+the watcher is shown `Starting` twice -/
+theorem C11_mutex_needed :
+    ∃ sched s, Mutex.runSched (Mutex.init false [[(0, Report.status St.starting)], [(0, Report.status St.starting)]]) sched = some s ∧
+      ¬ DocPath .none (s.log.filterMap (projEv 0)) := by
+  obtain ⟨sched, s, h1, h2⟩ := Mutex.mutex_unlocked_breaks
+  refine ⟨sched, s, h1, ?_⟩
+  rw [h2]
+  intro hd
+  have := (C11_docPathB_iff _ _).mpr hd
+  revert this
+  decide
+
+/-- a goroutine that wants the lock while another one is inside the critical section cannot move -/
+example : (Mutex.runSched (Mutex.init true [[(0, .status .starting), (0, .okIfStarting)], [(0, .status .recoverable)]])
+    [0, 0, 0, 0, 0, 1, 1, 1, 1, 1, 0, 0, 0, 0, 0]).map (·.log) = some [(0, .starting), (0, .recoverable)] ∧
+  (Mutex.runSched (Mutex.init true [[(0, .status .starting)], [(0, .status .recoverable)]]) [0, 0, 1]).isNone = true := by
+  constructor <;> decide
+
+/-! ## the wrapper's lock: `hostWrapper.Report` / `addSource` ARE atomic w.r.t. each other (sub-step LTS of `Model/C11WLock.lean`)
+
+The shared-component models (`Wrapper`, `WrapperE`, `HW`) treat a `Report` (remember + fan-out to every source) and an `addSource`
+(replay + append) as one step each.  That is a theorem about the sub-step system — Lock, ring update / loop start, ONE sub-step per
+delivery, append, Unlock; the component reporting from any number of goroutines while the graph attaches late instances. -/
+
+/-- regenerated shape fact: both wrapper methods hold `h.lock` from their first statement to their return -/
+theorem C11_wrapper_critical_section : StatusGlue.wrapperLocked = true := by decide
+
+/-- at EVERY reachable state — any goroutines, any programs of `Report` / `addSource` calls, any scheduler, any initial wrapper —:
+whenever the lock is free the wrapper (sources, ring) and the sequence of deliveries are exactly what the atomic model yields for the
+calls in `Lock` order; at all times the deliveries made so far are a prefix of it -/
+theorem C11_wlock_atomic (cap : Nat) (hw0 : HW) (progs : List (List WLock.WCall)) (sched : List Nat) (s : WLock.WState)
+    (h : WLock.runSched (WLock.init StatusGlue.wrapperLocked cap hw0 progs) sched = some s) :
+    (s.holder = Option.none → (s.hw, s.out) = WLock.applyCalls cap (hw0, []) s.calls) ∧
+    (∃ k, s.out = (WLock.applyCalls cap (hw0, []) s.calls).2.take k) := by
+  rw [C11_wrapper_critical_section] at h
+  exact WLock.wlock_atomic cap hw0 progs sched s h
+
+/-- the lock is what makes it true: without it a late instance can end attached and yet have missed a report for good (neither
+replayed nor fanned out), which no sequential order of the two calls allows -/
+theorem C11_wlock_needed :
+    ∃ sched s, WLock.runSched (WLock.init false 5 { sources := [0] } [[.report .ok], [.attach 1]]) sched = some s ∧
+      (∀ th ∈ s.threads, th.todo = []) ∧ s.hw.sources = [0, 1] ∧ s.out = [(0, Report.status .ok)] ∧
+      (WLock.applyCalls 5 ({ sources := [0] }, []) [.report .ok, .attach 1]).2 = [(0, .status .ok), (1, .status .ok)] ∧
+      (WLock.applyCalls 5 ({ sources := [0] }, []) [.attach 1, .report .ok]).2 = [(0, .status .ok), (1, .status .ok)] := by
+  obtain ⟨sched, s, h1, h2, h3, h4⟩ := WLock.wlock_unlocked_breaks
+  exact ⟨sched, s, h1, h2, h3, h4, by decide, by decide⟩
+
+example : (WLock.runSched (WLock.init true 5 { sources := [0] } [[.report .ok], [.attach 1]]) [1, 1, 0]).isNone = true ∧
+    ((WLock.runSched (WLock.init true 5 { sources := [0] } [[.report .ok], [.attach 1]]) [1, 1, 1, 1, 0, 0, 0, 0, 0, 0]).map (·.out)) =
+      some [(0, .status .ok), (1, .status .ok)] ∧
+    ((WLock.runSched (WLock.init true 5 { sources := [0] } [[.report .ok], [.attach 1]]) [0, 0, 0, 0, 0, 1, 1, 1, 1, 1]).map (·.out)) =
+      some [(0, .status .ok), (1, .status .ok)] := by
+  refine ⟨by decide, by decide, by decide⟩
+
+/-! ## instance ids (`component/componentstatus/instance.go`, tied by the exact `c11-inst` differential) -/
+
+/-- an instance id depends only on the SET of pipelines it was given: the order (`graph.Build` walks a Go map), duplicates and the
+grouping into `NewInstanceID` / `WithPipelines` calls are immaterial — one component instance has one id, hence one state machine
+and one event stream at the watchers -/
+theorem C11_instance_pipelines_canonical (comp kind : Nat) (l1 l2 : List Nat) (h : ∀ x, x ∈ l1 ↔ x ∈ l2) :
+    IID.new comp kind l1 = IID.new comp kind l2 := by
+  simp only [IID.new, normPipes_canonical l1 l2 h]
+
+theorem C11_instance_with_pipelines (comp kind : Nat) (a b c : List Nat) (h : ∀ x, x ∈ c ↔ x ∈ a ∨ x ∈ b) :
+    (IID.new comp kind a).withPipelines b = IID.new comp kind c := by
+  simp only [IID.new, IID.withPipelines]
+  congr 1
+  apply normPipes_canonical
+  intro x
+  rw [List.mem_append, mem_normPipes, h]
+
+/-- what `AllPipelineIDs` enumerates: exactly the pipelines given, each once, in increasing order -/
+theorem C11_instance_enumeration (comp kind : Nat) (l : List Nat) :
+    (IID.new comp kind l).pipes.Pairwise (· < ·) ∧ ∀ x, x ∈ (IID.new comp kind l).pipes ↔ x ∈ l :=
+  ⟨normPipes_sorted l, fun x => mem_normPipes x l⟩
+
+example : (IID.new 1 2 [5, 3, 5]).withPipelines [3, 9, 0] = IID.new 1 2 [0, 9, 5, 3] := by decide
 
 end OtelVerif.C11
